@@ -904,8 +904,56 @@ def _match_to_if(tree: ast.Module) -> int:
     return n
 
 
+def expand_dict_splats(tree: ast.Module) -> int:
+    """`opts = {"a": x, "b": y} ... f(p, **opts) ... g(**opts)`  ->  `f(p, a=x, b=y) ... g(a=x, b=y)` when `opts` is a
+    local bound once to a dict literal with string keys and plain-name / constant values, and is used for nothing but
+    `**opts` (so neither the dict nor its values can change in between)."""
+    n = 0
+    for fn in ast.walk(tree):
+        if not isinstance(fn, (ast.FunctionDef, ast.AsyncFunctionDef)):
+            continue
+        loads, stores, banned = _name_counts(fn)
+        cands = {}
+        for lst_owner in ast.walk(fn):
+            for fld in ("body", "orelse", "finalbody"):
+                lst = getattr(lst_owner, fld, None)
+                if not (isinstance(lst, list) and lst and isinstance(lst[0], ast.stmt)):
+                    continue
+                for st in lst:
+                    tg = st.targets[0] if isinstance(st, ast.Assign) and len(st.targets) == 1 else (st.target if isinstance(st, ast.AnnAssign) else None)
+                    v = getattr(st, "value", None)
+                    if isinstance(tg, ast.Name) and isinstance(v, ast.Dict) and v.keys and stores.get(tg.id, 0) == 1 and tg.id not in banned \
+                            and all(isinstance(k, ast.Constant) and isinstance(k.value, str) and k.value.isidentifier() for k in v.keys) \
+                            and all(isinstance(x, (ast.Name, ast.Constant)) for x in v.values):
+                        cands[tg.id] = (lst, st, v)
+        for name, (lst, st, d) in cands.items():
+            uses = [x for x in ast.walk(fn) if isinstance(x, ast.Name) and x.id == name and isinstance(x.ctx, ast.Load)]
+            splats = [(c, k) for c in ast.walk(fn) if isinstance(c, ast.Call) for k in c.keywords if k.arg is None and isinstance(k.value, ast.Name) and k.value.id == name]
+            if not splats or len(splats) != len(uses):
+                continue
+            # the values are never re-bound (parameters or single-assignment locals)
+            if any(isinstance(x, ast.Name) and stores.get(x.id, 0) > 1 for x in d.values):
+                continue
+            clash = False
+            for c, k in splats:
+                have = {kk.arg for kk in c.keywords if kk.arg is not None}
+                if have & {kk.value for kk in d.keys}:
+                    clash = True
+            if clash:
+                continue
+            for c, k in splats:
+                i = c.keywords.index(k)
+                c.keywords[i:i + 1] = [ast.keyword(arg=kk.value, value=copy.deepcopy(vv)) for kk, vv in zip(d.keys, d.values)]
+                ast.fix_missing_locations(c)
+            lst.remove(st)
+            if not lst:
+                lst.append(ast.Pass())
+            n += 1
+    return n
+
+
 def desugar(tree: ast.Module) -> int:
-    total = 0
+    total = expand_dict_splats(tree)
     for _ in range(3):
         k = _match_to_if(tree)
         total += k
